@@ -362,6 +362,89 @@ func c05(c *Ctx) {
 			"the merge consults the validity of the attribute it looks at ("+joinStr(bad)+"): an attribute with an empty key (which sorts first) or an INVALID value makes its whole set look exhausted and is dropped from the merge")
 	}
 
+	// merging: "the attribute emitted last" is no stand-in for "nothing emitted yet" — the zero KeyValue is a legal attribute
+	// (empty key, sorts first). A decision of Next that compares with the emitted slot (MergeIterator.current) needs an explicit
+	// boolean saying that something was emitted, in the same condition or on every way to it.
+	if fCur := lookupField(ax.Pkg, "MergeIterator", "current"); fCur != nil {
+		var bad []string
+		n := 0
+		for _, f := range sortedFuncs(ax.Funcs) {
+			if !strings.Contains(f.Name, "MergeIterator") {
+				continue
+			}
+			g := ax.FG(f)
+			mentionsCur := func(e ast.Node) bool {
+				hit := false
+				ast.Inspect(e, func(m ast.Node) bool {
+					if x, ok := m.(ast.Expr); ok && isField(ainfo, x, fCur) {
+						hit = true
+					}
+					return !hit
+				})
+				return hit
+			}
+			isFlag := func(e ast.Expr) bool {
+				e = unparen(e)
+				if u, ok := e.(*ast.UnaryExpr); ok && u.Op == token.NOT {
+					e = unparen(u.X)
+				}
+				switch e.(type) {
+				case *ast.Ident, *ast.SelectorExpr:
+				default:
+					return false
+				}
+				if mentionsCur(e) {
+					return false
+				}
+				tv, has := ainfo.Types[e]
+				if !has || tv.Value != nil {
+					return false
+				}
+				b, isB := tv.Type.Underlying().(*types.Basic)
+				return isB && b.Kind() == types.Bool
+			}
+			for _, x := range g.Nodes {
+				for _, e := range x.Succs {
+					if e.Cond == nil || e.Tag != nil {
+						continue
+					}
+					cmp := false
+					ast.Inspect(e.Cond, func(m ast.Node) bool {
+						if be, ok := m.(*ast.BinaryExpr); ok {
+							switch be.Op {
+							case token.EQL, token.NEQ, token.LSS, token.LEQ, token.GTR, token.GEQ:
+								if mentionsCur(be.X) || mentionsCur(be.Y) {
+									cmp = true
+								}
+							}
+						}
+						return !cmp
+					})
+					if !cmp || e.Pol < 0 {
+						continue // each condition is judged once, on its true edge
+					}
+					n++
+					guarded := false
+					for _, cj := range conjuncts(e.Cond) {
+						if isFlag(cj) {
+							guarded = true
+						}
+					}
+					if !guarded {
+						guarded, _ = g.DominatedByEdges(x, func(d *GEdge) bool {
+							return d.Cond != nil && d.Tag == nil && isFlag(d.Cond)
+						})
+					}
+					if !guarded {
+						bad = append(bad, exprStr(e.Cond)+" in "+f.Name)
+					}
+				}
+			}
+		}
+		c.Check(len(bad) == 0, "R3", "attribute|MergeIterator|the emitted slot is not a sentinel for \"nothing emitted yet\"", at(ax.M, ax.Pkg.Syntax[0].Pos()), itoa(n)+" comparison(s) with MergeIterator.current, each under an explicit flag",
+			"the merge decides by comparing with the attribute emitted last ("+joinStr(bad)+") without knowing that one was emitted: before the first emission that slot is the zero KeyValue, so an attribute with the empty key is taken for a repeat and dropped from the merge")
+	}
+
 	c.Rule("R4", "E2 table", "computeDistinctFixed: every `case n` returns an array of exactly n elements; other lengths fall to the reflect path", 10)
 	if fn := c.Fn(ax, "R4", "computeDistinctFixed"); fn != nil {
 		var sw *ast.SwitchStmt
